@@ -49,6 +49,24 @@ P('C09',
   thorough=dict(cases=12000000, max_size=600, max_seconds=1200, fuzz=dict(seconds=240, jobs=8, max_len=1024)),
   )
 
+P('C10',
+  technique='stateful model-based property testing: generated and exhaustively enumerated cache operation histories against a map model, structural audit of lists/counters after every step',
+  rule='history of up to 150 operation records (put / get exact / get masked or wildcard / ref / unref / foreach / channel switch / hold and '
+       'release network / page-type update / is_cached + hi_subno / tight memory limit) over 7 page numbers (two in one hash bucket, one hex) x '
+       '9 subcodes x 8 page kinds and sizes, on a decoder cache or a bare cache. Non-trivial: a page replaced while referenced, or a held page '
+       'released after its network was switched away, or an eviction, or a wildcard lookup among >= 2 versions; distinct = hash of consumed choices. '
+       'Exhaustive sub-space: all histories up to depth 5 (quick) / 6 (thorough) over a 12-operation alphabet.',
+  level_text='Generated-history search with an explicit oracle: after every operation lookups must equal a map model (content copy-equal, exact '
+             'subcode, most-recently stored-or-looked-up version for wildcards), held pages must stay intact, evictions are judged by a validity '
+             'predicate (only when the limit requires one, never a referenced page), and a structural audit recomputes every counter and list '
+             'membership from the private structures; all histories up to a bounded depth are enumerated exhaustively. No absence claim beyond that bound.',
+  level_note='Trusted: the model of the subpage key rules (EN 300 706 A.1 as documented in cache.c), cache-priv.h for the audit and for poking memory_limit (no public setter in 0.2), cache_page_size() for the size classes.',
+  design_ref='DESIGN.md section 2, C10',
+  states_termination=True,
+  quick=dict(cases=150000, max_size=700, max_seconds=150),
+  thorough=dict(cases=4000000, max_size=700, max_seconds=1500, fuzz=dict(seconds=240, jobs=8, max_len=1024)),
+  )
+
 NOT_YET = {}
 
 
